@@ -140,6 +140,12 @@ func vHasPrefix(a, p []byte) bool  { return len(a) >= len(p) && string(a[:len(p)
 func vInstantiate(i int)           {}
 func vNote(s string)               {}
 func vSymbolic() bool              { return false }
+func vPickString(idx int, options ...string) string {
+	if idx < 0 || idx >= len(options) {
+		return options[len(options)-1]
+	}
+	return options[idx]
+}
 func vAll(c ...bool) bool {
 	for _, x := range c {
 		if !x {
